@@ -1,6 +1,6 @@
 SPECIFICATION Spec
 CONSTANTS
-    Mode = "edges"
+    Mode = "pairs"
     Depth = 0
     MaxCalls = 2
     Calls <- QuickCalls
